@@ -255,7 +255,7 @@ func genIndexSigGlue() {
 		var modeStmts []string
 		if md := f.fn("indexVerificationMode"); md != nil && md.Body != nil {
 			for _, s := range md.Body.List {
-				modeStmts = append(modeStmts, noStrings(f.src(s)))
+				modeStmts = append(modeStmts, f.src(s))
 			}
 		}
 		l.defStrList("glue_modeStmts", modeStmts)
